@@ -3,6 +3,7 @@ package otp
 import (
 	"errors"
 	"fmt"
+	"math"
 	"strconv"
 	"strings"
 )
@@ -389,8 +390,14 @@ func parseTimeGranularity(g string) (int, error) {
 	case 'S':
 		return val, nil
 	case 'M':
+		if val > math.MaxInt/60 {
+			return 0, fmt.Errorf("time spec %q out of range", g)
+		}
 		return val * 60, nil
 	case 'H':
+		if val > math.MaxInt/3600 {
+			return 0, fmt.Errorf("time spec %q out of range", g)
+		}
 		return val * 3600, nil
 	default:
 		return 0, fmt.Errorf("unknown time unit %q", unit)
